@@ -13,14 +13,14 @@ import (
 )
 
 type PNode struct {
-	w     *World
-	num   int
-	part  *Part
-	h     *hg.Hashgraph
-	store hg.Store
-	head  string
-	seq   int
-	tsGen func() int64
+	w      *World
+	num    int
+	part   *Part
+	h      *hg.Hashgraph
+	store  hg.Store
+	head   string
+	seq    int
+	tsGen  func() int64
 	sigGen func(p *PNode) []hg.BlockSignature
 }
 
